@@ -321,6 +321,10 @@ class Renderer:
             d["default"] = self.val(default_v, dim, owner_us, family)
         if not d:
             return self.val(0.0, dim, owner_us, family)
+        if len(d) > 1 and self.ru.sub("order", len(d), sorted(d)[0]).chance(0.5):
+            # key order is the writer's business: 'default' first, environments in any order
+            keys = self.ru.sub("order2", len(d), sorted(d)[0]).shuffle(list(d))
+            d = {k: d[k] for k in keys}
         return d
 
     def network(self, spec, parent_eff):
@@ -467,7 +471,10 @@ class Renderer:
             else:
                 d["state"] = [si.to_units(v, eff, si.DIM_QUANTITY) for v in spec["state"]]
         if spec.get("chem") is not None:
-            d["chemostats"] = [int(c) for c in spec["chem"]]
+            # a flag is any non-zero integer (set_chemostat takes "int or bool")
+            rfl = self.ru.sub("flagvalues")
+            big = self.rich and rfl.chance(0.3)
+            d["chemostats"] = [(int(c) * (rfl.choice([1, 1, 2, 5]) if big else 1)) for c in spec["chem"]]
         return d, parent_eff, {"sys_eff": eff, "net_eff": neff, "space_eff": seff}
 
 
